@@ -2,46 +2,21 @@ import Driver.Common
 import DnsVerif.Model.Serve
 import DnsVerif.Spec.Answer
 import DnsVerif.Model.Stats
+import DnsVerif.Model.Pipeline
 
 /-! Driver for the `serve` op: compile the data file with the model codec for each storage
 configuration, answer every query with the model handler, render canonically. Address groups are
 compared relationally with the implementation's output (weighted random selection). -/
 
 namespace Driver.Serve
-open DnsVerif DnsVerif.Codec DnsVerif.Rearr DnsVerif.Loc DnsVerif.Serve Driver
+open DnsVerif DnsVerif.Codec DnsVerif.Rearr DnsVerif.Loc DnsVerif.Serve DnsVerif.Pipeline Driver
 
-def serial : Nat := 1700000000
+/-! `serial`, `cfgFor`, `featuresKV`, `compile`, `decodeKV`, `zoneOf`, `noSvcb` are in
+`DnsVerif/Model/Pipeline.lean` (namespace `DnsVerif.Pipeline`, opened above); `Proofs/Pipeline.lean`
+proves that the store `compile` builds represents the records `zoneOf` declares. -/
 
 def backends : List (String × Backend) :=
   [("cdb", .cdb false), ("cdbsep", .cdb true), ("v1", .rdbV1), ("v2", .rdbV2)]
-
-def cfgFor (b : Backend) : Cfg :=
-  match b with
-  | .cdb _ => { serial := serial }
-  | .rdbV1 => { serial := serial, noRnetOutput := true, ranger := true }
-  | .rdbV2 => { serial := serial, noRnetOutput := true, ranger := true, useV2Keys := true }
-
-def featuresKV (cfg : Cfg) : KV :=
-  (Generated.dnsdata_FeaturesKey, [if cfg.useV2Keys then 2 else 1, 0, 0, 0])
-
-/-- the whole compilation: per-line records, accumulator output, features record -/
-def compile (b : Backend) (svcb : SvcbFn) (lines : List Bytes) : Option Store :=
-  let cfg := cfgFor b
-  let r := lines.foldlM (fun (acc : List KV × List Subnet) raw =>
-    match filterLine raw with
-    | none => some acc
-    | some l =>
-      match convertLine cfg svcb l with
-      | .error _ => none
-      | .ok lo => some (acc.1 ++ lo.kvs, acc.2 ++ lo.subnet.toList)) ([], [])
-  match r with
-  | none => none
-  | some (kvs, subs) =>
-    let accKVs : Option (List KV) :=
-      match b with
-      | .cdb _ => some (prefixSetKVs subs)
-      | _ => rangePointKVs subs
-    accKVs.map fun a => Store.ofKVs (kvs ++ a ++ [featuresKV cfg])
 
 /-! ### query tokens -/
 
@@ -190,55 +165,6 @@ def answerOne (b : Backend) (store : Store) (q : QTok) (implResult : String) : S
 
 /-! ### the Spec oracle: records, maps and subnets of the data file, independent of key layout -/
 
-/-- decode one v1-layout (key, value) pair emitted by the codec into an abstract record / map -/
-def decodeKV (kv : KV) : Option Spec.Rec × Option Spec.MapDecl :=
-  let (k, v) := kv
-  match k with
-  | 0 :: t :: rest =>
-    if (t = 0x4d ∨ t = 0x38) ∧ rest.length ≥ 2 then
-      -- map: packed name then '=' or '*'
-      let body := rest.take (rest.length - 1)
-      match Name.unpack body, rest.getLast? with
-      | some ls, some sfx =>
-        (none, some { ecs := t = 0x38, owner := ls, wild := sfx = 0x2a, mapID := [v.getD 0 0, v.getD 1 0] })
-      | _, _ => (none, none)
-    else
-      -- location tagged 0,x … or a control key; resource records have a 2-byte location prefix
-      match Name.unpack (k.drop 2) with
-      | some ls =>
-        match extractRR v false, extractRR v true with
-        | .row r, _ => (some { owner := ls, wild := false, loc := k.take 2, type := r.qtype, ttl := r.ttl,
-                               weight := r.weight, rdata := r.rdata }, none)
-        | _, .row r => (some { owner := ls, wild := true, loc := k.take 2, type := r.qtype, ttl := r.ttl,
-                               weight := r.weight, rdata := r.rdata }, none)
-        | _, _ => (none, none)
-      | none => (none, none)
-  | _ =>
-    match Name.unpack (k.drop 2) with
-    | some ls =>
-      match extractRR v false, extractRR v true with
-      | .row r, _ => (some { owner := ls, wild := false, loc := k.take 2, type := r.qtype, ttl := r.ttl,
-                             weight := r.weight, rdata := r.rdata }, none)
-      | _, .row r => (some { owner := ls, wild := true, loc := k.take 2, type := r.qtype, ttl := r.ttl,
-                             weight := r.weight, rdata := r.rdata }, none)
-      | _, _ => (none, none)
-    | none => (none, none)
-
-/-- the declared content of a data file (through the v1 / CDB codec configuration) -/
-def zoneOf (lines : List Bytes) : Option Spec.Zone :=
-  let cfg : Cfg := { serial := serial, noRnetOutput := true }
-  let r := lines.foldlM (fun (acc : List KV × List Subnet) raw =>
-    match filterLine raw with
-    | none => some acc
-    | some l =>
-      match convertLine cfg (fun _ => none) l with
-      | .error _ => none
-      | .ok lo => some (acc.1 ++ lo.kvs, acc.2 ++ lo.subnet.toList)) ([], [])
-  r.map fun (kvs, subs) =>
-    let dec := kvs.map decodeKV
-    { recs := dec.filterMap (·.1), maps := dec.filterMap (·.2),
-      subnets := subs.map fun s => { mapID := s.lmap, net := ipToNat s.ip, ones := s.ones, loc := s.lo.getD [0, 0] } }
-
 /-- `SoaHasNs` of the well-formedness predicate (DESIGN section 6, `Proofs/ServeRefine.lean`): the
 owner of an SOA also owns an NS visible wherever the SOA is. Files without it are outside the
 statement's "well-formed data files" and get no Spec verdict (implementation = model and the
@@ -289,8 +215,6 @@ def dedupAr (r : String) : String :=
     | body :: rest => a ++ ",ar=[" ++ "|".intercalate ((body.splitOn "|").eraseDups) ++ "]" ++ "]".intercalate rest
     | [] => r
   | _ => r
-
-def noSvcb : SvcbFn := fun _ => none
 
 /-- the `serve`/`servecs` op: model output and Spec verdict -/
 def serveOp (withOpt : Bool) (ls qs : String) (impl : Option String) : String × String :=
